@@ -732,6 +732,10 @@ impl<'a> SkiplistIterator<'a> {
 
 	/// Move to last entry
 	pub fn last(&mut self) {
+		// Forget the cached upper-bound node: `is_valid()` treats it as "not an
+		// entry", which would stop the backward scan below on the very first
+		// node (the scan has to walk over the nodes at or past the upper bound).
+		self.upper_node = std::ptr::null_mut();
 		self.nd = self.list.get_prev(self.list.tail, 0);
 		if self.nd == self.list.head || self.nd == self.lower_node {
 			return;
